@@ -278,18 +278,6 @@ class LoadgenHarness(Harness):
     def generate(self, prop, g, tier):
         return generate(prop, g, tier)
 
-    def directed(self, prop, tier):
-        import os
-
-        out = []
-        d = os.path.join(os.path.dirname(os.path.dirname(os.path.abspath(__file__))), "corpus", prop)
-        if os.path.isdir(d):
-            for fn in sorted(os.listdir(d)):
-                if fn.endswith(".json"):
-                    with open(os.path.join(d, fn), encoding="utf-8") as f:
-                        out.append((fn[:-5], json.load(f)))
-        return out
-
     def simplify(self, prop, cfg):
         if len(cfg["tasks"]) > 1:
             for i in range(len(cfg["tasks"])):
